@@ -18,6 +18,7 @@ import (
 	"strconv"
 	"sync"
 	"testing"
+	"time"
 
 	"pgregory.net/rapid"
 )
@@ -249,6 +250,63 @@ func Main[C any](t *testing.T, s Spec[C]) {
 
 	findings := loadFindings(s.ID)
 
+	// --- minimise mode: structural delta debugging of a saved failing case ------
+	// (after rapid's own shrinking): repeatedly delete elements of the case's
+	// JSON arrays (operation lists, worker lists, …) while the case still violates
+	// the property; the result replaces the replay file. Library-free.
+	if path := os.Getenv("VERIF_MINIMIZE"); path != "" {
+		b, err := os.ReadFile(path)
+		if err != nil {
+			t.Fatal(err)
+		}
+		var rf replayFile
+		if err := json.Unmarshal(b, &rf); err != nil {
+			t.Fatal(err)
+		}
+		for _, f := range findings {
+			env.known[f.Matcher] = true
+		}
+		deadline := time.Now().Add(90 * time.Second)
+		fails := func(raw json.RawMessage) (string, bool) {
+			var c C
+			if err := json.Unmarshal(raw, &c); err != nil {
+				return "", false
+			}
+			o := safeRun(s, env, c)
+			return o.Violation, o.Violation != ""
+		}
+		cur := rf.Case
+		msg, ok := fails(cur)
+		if !ok {
+			fmt.Println("MINIMIZE: case does not fail deterministically, left as is")
+			return
+		}
+		removed := 0
+		for changed := true; changed && time.Now().Before(deadline); {
+			changed = false
+			var tree any
+			_ = json.Unmarshal(cur, &tree)
+			paths := arrayPaths(tree, nil)
+			for _, pth := range paths {
+				n := arrayLen(tree, pth)
+				for i := n - 1; i >= 0 && time.Now().Before(deadline); i-- {
+					cand := deleteAt(tree, pth, i)
+					raw, _ := json.Marshal(cand)
+					if m, bad := fails(raw); bad {
+						tree, cur, msg = cand, raw, m
+						removed++
+						changed = true
+					}
+				}
+			}
+		}
+		rf.Case, rf.Violation = cur, msg
+		out, _ := json.MarshalIndent(rf, "", " ")
+		_ = os.WriteFile(path, out, 0o644)
+		fmt.Printf("MINIMIZE: removed %d elements\n", removed)
+		return
+	}
+
 	// --- replay mode: run one saved case without the library -----------------
 	if path := os.Getenv("VERIF_REPLAY"); path != "" {
 		b, err := os.ReadFile(path)
@@ -461,4 +519,84 @@ func writeReplay[C any](id string, env *Env, c C, violation string) string {
 func reportViolation[C any](t *testing.T, id string, env *Env, c C, violation string, frag *fragment) {
 	writeReplay(id, env, c, violation)
 	t.Fatalf("%s violated: %s", id, violation)
+}
+
+// ---- helpers of the structural minimiser ---------------------------------------------
+
+// arrayPaths lists the paths of all arrays in a JSON tree (outermost first).
+func arrayPaths(v any, prefix []any) [][]any {
+	var out [][]any
+	switch x := v.(type) {
+	case map[string]any:
+		keys := make([]string, 0, len(x))
+		for k := range x {
+			keys = append(keys, k)
+		}
+		sort.Strings(keys)
+		for _, k := range keys {
+			out = append(out, arrayPaths(x[k], append(append([]any{}, prefix...), k))...)
+		}
+	case []any:
+		out = append(out, append([]any{}, prefix...))
+		for i := range x {
+			out = append(out, arrayPaths(x[i], append(append([]any{}, prefix...), i))...)
+		}
+	}
+	return out
+}
+
+func at(v any, path []any) any {
+	for _, p := range path {
+		switch k := p.(type) {
+		case string:
+			m, ok := v.(map[string]any)
+			if !ok {
+				return nil
+			}
+			v = m[k]
+		case int:
+			a, ok := v.([]any)
+			if !ok || k >= len(a) {
+				return nil
+			}
+			v = a[k]
+		}
+	}
+	return v
+}
+
+func arrayLen(v any, path []any) int {
+	a, _ := at(v, path).([]any)
+	return len(a)
+}
+
+// deleteAt returns a deep copy of the tree with element i of the array at path removed.
+func deleteAt(v any, path []any, i int) any {
+	b, _ := json.Marshal(v)
+	var cp any
+	_ = json.Unmarshal(b, &cp)
+	if len(path) == 0 {
+		a, _ := cp.([]any)
+		if i < len(a) {
+			return append(a[:i:i], a[i+1:]...)
+		}
+		return cp
+	}
+	parent := at(cp, path[:len(path)-1])
+	a, _ := at(cp, path).([]any)
+	if i >= len(a) {
+		return cp
+	}
+	na := append(a[:i:i], a[i+1:]...)
+	switch k := path[len(path)-1].(type) {
+	case string:
+		if m, ok := parent.(map[string]any); ok {
+			m[k] = na
+		}
+	case int:
+		if pa, ok := parent.([]any); ok && k < len(pa) {
+			pa[k] = na
+		}
+	}
+	return cp
 }
